@@ -29,7 +29,7 @@ echo "| change | alarms |"
 echo "|---|---|"
 for f in "$OUT"/*.res; do
   bid=$(basename "$f" .res)
-  if [ -s "$f" ]; then echo "| $bid | $(tr '\n' ';' < "$f") |"; else echo "| $bid | none (20 checks exit 0) |"; fi
+  if [ -s "$f" ]; then echo "| $bid | $(tr '\n' ';' < "$f") |"; else echo "| $bid | none (${CHECKS:-all 20 checks}: exit 0) |"; fi
 done
 } > ${RESULTS:-$V/benign/RESULTS-$TIER.md}
 cat ${RESULTS:-$V/benign/RESULTS-$TIER.md}
